@@ -76,4 +76,18 @@ CHECKS = {
              'mol x molar volume at the current phase/T/P, sums of those and an independent unit table, every view/unit/total write must store exactly the corresponding molar flows, '
              'inconsistent units must raise DimensionError, interleaved with T/P/phase/phases changes, linking, copy_like, mixing and property-package resets.',
         note='Trusted: TLC; chemical.MW / chemical.V evaluated directly as the oracle for the conversion factor; tolerance 1e-9 relative; integer molar flows.'),
+    'C05': dict(
+        engine='Reaction', category='model_checking',
+        technique='TLA+ spec of stoichiometric reactions over exact rationals (Reaction.tla) model-checked by TLC with action properties ReactConserves / ReactConverts; reactions applied to real streams, arrays and other-package streams on mol and wt basis; TLC validates every application',
+        text='TLC explores all sequences (depth 3-4) of loading five balanced reactions on H2/O2/H2O/CH4/CO/CO2 with every reactant choice, setting feeds, combining reactions and applying single / parallel / series / system '
+             'reactions, and checks element conservation and exact conversion on the model; every application on the real objects (stream on mol basis, the same reaction on wt basis, a stream of another package '
+             'order, dense and sparse arrays) must give exactly the rational result, and must raise instead of returning a negative flow.',
+        note='Trusted: TLC; the projection (reaction._stoichiometry, _reactant_index, X; stream.mol) rounded to rationals with denominators <= 2^20; dyadic data so that the mol-basis path is exact.'),
+    'C17': dict(
+        engine='Reaction', category='model_checking',
+        technique='TLA+ spec of reaction arithmetic as values (Reaction.tla: AddR/SubR/MulR/NegR/Backwards) model-checked by TLC with AddIsParallel and SubUndoesAdd; real Reaction / ReactionSet objects validated by TLC after every operator',
+        text='TLC checks on the model that a + b acts like a and b in parallel on every model feed and that (a + b) - b is a again, for every pair built from the library; on the real objects every binary, scalar, '
+             'unary and in-place operator, copy, backwards (with and without reactant), conversion assignment on reactions, items and sets is compared with the value semantics (stoichiometry, reactant, X), '
+             'operands must be unchanged and results must be new objects.',
+        note='Trusted: TLC; the projection (reaction._stoichiometry, _reactant_index, X; stream.mol) rounded to rationals with denominators <= 2^20; dyadic data so that the mol-basis path is exact.'),
 }
